@@ -825,7 +825,13 @@ func main() {
 		kinds := []string{"start", "chunk", "abort", "finalize", "chunk"}
 		for i := 0; i < (*n+1)/2; i++ {
 			for _, be := range []string{"badger", "pathbadger"} {
-				cases = append(cases, Case{Backend: be, Restore: &Restore{NKeys: r.Range(8, 40), Pre: r.Chance(50), Last: kinds[i%len(kinds)], J: r.Range(0, 3)}})
+				rc := &Restore{NKeys: r.Range(8, 40), Pre: r.Chance(50), Last: kinds[i%len(kinds)], J: r.Range(0, 3)}
+				if i%2 == 1 && (rc.Last == "chunk" || rc.Last == "abort") {
+					// interrupted restore into a database sharing most nodes with the checkpoint, then
+					// ordinary operation at the same version
+					rc.Shared, rc.Pre, rc.Cont, rc.J = true, false, "normal", r.Range(1, 3)
+				}
+				cases = append(cases, Case{Backend: be, Restore: rc})
 			}
 		}
 	}
@@ -863,7 +869,7 @@ func main() {
 			for j := 0; j < v; j++ {
 				sum.Count("outcome", k)
 			}
-			if k == "crash-state:not-at-all" || k == "retry:ok" || k == "restore:retry-ok" {
+			if k == "crash-state:not-at-all" || k == "retry:ok" || k == "restore:retry-ok" || k == "restore:continued-normally-ok" {
 				sum.DistinctNontrivial += v
 			}
 		}
